@@ -283,12 +283,13 @@ func (c *Cache[k, v]) pruneCount() {
 		if c.pruneFn != nil {
 			if c.prunePreFn != nil {
 				// the pre function may wait for a lock whose holder is waiting for the cache lock,
-				// release the cache lock and verify the entry is unchanged
+				// release the cache lock and verify the entry is unchanged and was not used in the meantime
 				e := c.entries[key]
+				used := e.used
 				c.mu.Unlock()
 				c.prunePreFn(key, e.value)
 				c.mu.Lock()
-				if c.entries[key] != e {
+				if c.entries[key] != e || !e.used.Equal(used) {
 					if c.prunePostFn != nil {
 						c.prunePostFn(key, e.value)
 					}
